@@ -5,18 +5,44 @@
 mod codec;
 mod gen;
 mod rng;
+mod scen_exec;
 mod scen_stack;
+mod stategen;
 
 use std::io::{BufRead, Write};
 
+#[repr(C)]
+struct RLimit {
+    cur: u64,
+    max: u64,
+}
+extern "C" {
+    fn setrlimit(resource: i32, rlim: *const RLimit) -> i32;
+}
+const RLIMIT_AS: i32 = 9;
+
 fn main() {
+    // address-space limit: an operand-sized allocation must fail fast instead of exhausting the host
+    let gb: u64 = std::env::var("PVH_MEM_GB").ok().and_then(|s| s.parse().ok()).unwrap_or(4);
+    let lim = RLimit { cur: gb << 30, max: gb << 30 };
+    unsafe {
+        setrlimit(RLIMIT_AS, &lim);
+    }
     // panics inside pushr are caught per case; keep stderr quiet
     std::panic::set_hook(Box::new(|_| {}));
     let args: Vec<String> = std::env::args().collect();
-    let stdout = std::io::stdout();
-    let mut w = std::io::BufWriter::with_capacity(1 << 20, stdout.lock());
+    // protocol lines go to the file named by PVH_OUT (pushr itself prints to stdout in places)
+    let sink: Box<dyn Write> = match std::env::var("PVH_OUT") {
+        Ok(p) => Box::new(std::fs::File::create(p).expect("PVH_OUT")),
+        Err(_) => Box::new(std::io::stdout()),
+    };
+    let mut w = std::io::BufWriter::with_capacity(1 << 20, sink);
     let mut out = |s: String| {
         let _ = writeln!(w, "{}", s);
+        if s.starts_with('#') {
+            // marker before a case that may abort the process: make sure it reaches the reader
+            let _ = w.flush();
+        }
     };
     match args.get(1).map(|s| s.as_str()) {
         Some("gen") => {
@@ -25,11 +51,17 @@ fn main() {
             let tier = args.get(4).map(|s| s.as_str()).unwrap_or("quick");
             match scen.as_str() {
                 "stack" => scen_stack::run(seed, tier, &mut out),
+                "exec" => scen_exec::run(seed, tier, args.get(5).map(|s| s.as_str()).unwrap_or("*"), &mut out),
                 "stack-exh" => scen_stack::run_exhaustive(if tier == "thorough" { 4 } else { 3 }, &mut out),
                 _ => {
                     eprintln!("unknown scenario {}", scen);
                     std::process::exit(2);
                 }
+            }
+        }
+        Some("names") => {
+            for n in stategen::instruction_names() {
+                out(n);
             }
         }
         Some("replay") => {
@@ -44,6 +76,8 @@ fn main() {
                         };
                         match kind.as_str() {
                             "stackop" => scen_stack::replay(&xs[1..]),
+                            "exec" => scen_exec::replay_exec(&xs[1..]),
+                            "step" => scen_exec::replay_step(&xs[1..]),
                             _ => None,
                         }
                     }
